@@ -83,6 +83,29 @@ func c06Discharger(c *core.Ctx, m *serverModel, rule string) Discharger {
 						return false, "pattern does not compile: " + err.Error()
 					}
 				}
+				// the pattern is the parameter of a private constructor: every call passes a constant that compiles
+				if prm, isP := facts.ResolveFree(call.Common().Args[0]).(*ssa.Parameter); isP {
+					h := prm.Parent()
+					sites := privateCallSites(h)
+					pi := -1
+					for i, q := range h.Params {
+						if q == prm {
+							pi = i
+						}
+					}
+					if len(sites) > 0 && pi >= 0 {
+						for _, st := range sites {
+							pat, ok := facts.ConstString(st.Common().Args[pi])
+							if !ok {
+								return false, "a pattern handed to " + fnName(h) + " is not a constant"
+							}
+							if _, err := compilesAsGoRegexp(pat); err != nil {
+								return false, "pattern does not compile: " + err.Error()
+							}
+						}
+						return true, sprintf("every pattern handed to %s (%d call sites) is a constant that compiles", fnName(h), len(sites))
+					}
+				}
 				return false, ""
 			}
 			if strings.HasSuffix(s.Expr, "Request).MustConstruct") {
@@ -109,7 +132,7 @@ func c06Discharger(c *core.Ctx, m *serverModel, rule string) Discharger {
 				} else {
 					return false, why
 				}
-			case strings.HasSuffix(name, "ociregistry.MarshalError"):
+			case strings.HasSuffix(name, "ociregistry.MarshalError") || onlyCalledFrom(fn, "ociregistry.MarshalError", 2):
 				// panic only under json.Marshal error
 				for _, cd := range facts.CondsAt(s.In.Block()) {
 					if x, isNil, ok := facts.NilCheck(cd); ok && !isNil {
@@ -134,9 +157,8 @@ func c06Discharger(c *core.Ctx, m *serverModel, rule string) Discharger {
 			if u, ok := call.Value.(*ssa.UnOp); ok && u.Op == token.MUL {
 				if g, ok := u.X.(*ssa.Global); ok {
 					if init, ok := onceInitOf(g); ok {
-						n := facts.CalleeName(&init.Call)
-						if n == "sync.OnceValue" || n == "sync.OnceFunc" || n == "sync.OnceValues" {
-							return true, "package-level func variable assigned exactly once (in init) from " + n
+						if once, _, ok := onceCallOf(init); ok {
+							return true, "package-level func variable assigned exactly once (in init) from " + facts.CalleeName(&once.Call)
 						}
 					}
 				}
@@ -676,4 +698,23 @@ func hasMethod(it *types.Interface, name string) bool {
 		}
 	}
 	return false
+}
+
+// onlyCalledFrom: fn is a private helper every call site of which lies in the
+// function named by suffix (or in another such helper).
+func onlyCalledFrom(fn *ssa.Function, suffix string, depth int) bool {
+	sites := privateCallSites(fn)
+	if len(sites) == 0 || depth <= 0 {
+		return false
+	}
+	for _, s := range sites {
+		caller := outermost(s.Parent())
+		if strings.HasSuffix(roleName(caller), suffix) {
+			continue
+		}
+		if !onlyCalledFrom(caller, suffix, depth-1) {
+			return false
+		}
+	}
+	return true
 }
